@@ -400,7 +400,7 @@ PROPS["C16"]["gen"] = _c16_with_computed
 PROPS["C16"]["modules"] = ["Essential.Props.C16", "Essential.Props.C16b"]
 PROPS["C16"]["rule"] += "; plus generated sets with declared / computed clashes (same and different predicates of one contract) run through the two-pass check: the returned set must have unique (contract, key) slots and be accepted by check_set (o_perm with the identity order)"
 
-PROPS["C18"]["modules"] = ["Essential.Props.C18", "Essential.Props.C18b"]
+PROPS["C18"]["modules"] = ["Essential.Props.C18", "Essential.Props.C18b", "Essential.Props.C18c"]
 PROPS["C18"]["rule"] += "; postcard: `pc` (encoder) and `pcdec` (decoder, value and number of bytes left) of solutions, mutations and sets on model and code: valid encodings, truncations, trailing bytes, flipped bits, non-canonical and over-long varints, random bytes; o_serde (implementation only): JSON / postcard / Display+FromStr round trips and legacy field names for every public data type"
 
 PROPS["C04"]["modules"] = ["Essential.Props.C04", "Essential.Props.C04b"]
